@@ -108,6 +108,26 @@ class TreeGen:
                 self.composite()
 
 
+def near_rep_ops(r, g):
+    """structs / tuples whose flattening is an exact repetition of a small dtype, and the same with ONE
+    entry (often the last) replaced: the boundary of isCyclic's loops.  Appends to g; returns new slots."""
+    new = []
+    b = g.pick(2)
+    o = g.pick(2)
+    if b is None or o is None or g.leaves[b] == 0 or g.leaves[b] > 8:
+        return new
+    n = r.choice([2, 3, 3, 4])
+    for odd in ([None] if r.random() < 0.3 else [None, r.choice([n - 1, n - 1, 0, r.randrange(n)])]):
+        names = r.sample(NAMES, n)
+        fs = ["%s %d 1" % (hx(names[i]), o if i == odd else b) for i in range(n)]
+        lv = sum(g.leaves[o if i == odd else b] for i in range(n))
+        new.append(g.push("S %s %d %s" % (hx(r.choice(NAMES)), n, " ".join(fs)), "S",
+                          max(g.depth[b], g.depth[o]) + 1, lv))
+    if r.random() < 0.5:
+        new.append(g.push("T %d %d" % (b, n), "T", g.depth[b] + 1, g.leaves[b] * n))
+    return [b, o] + new
+
+
 # ---------------------------------------------------------------- JSON in the protocol syntax
 def jtok(v):
     if v is None:
